@@ -16,7 +16,7 @@ CLAIMED = {
     "C10": dict(
         engine="E-KNOB",
         technique="deterministic simulation with randomised tuning knobs and fault injection: knob vector (stack sizes, pool, queue, presize) drawn per run, forced value-stack reallocations at seeded calls (failpoint), seeded schedules; differential oracle against the default configuration",
-        text="Deterministic programs that stress what the knobs touch (deep recursion with live closures, generators and async bodies that assign locals between a reallocation and their next suspension, native methods calling back into bytecode, the generated plain / generator / async bodies of E-BODY, async DAGs, large literals, bulk symbols) run under a knob vector drawn per run and up to five forced reallocations of the value stack at PRNG-chosen calls; stdout and error must equal the run at default sizes unless a stack limit is reported. Initial stacks below 64 slots are a listed known finding (drawn rarely, each in a worker process that is recycled afterwards). Exploration level.",
+        text="Deterministic programs that stress what the knobs touch (deep recursion with live closures, generators and async bodies that assign locals between a reallocation and their next suspension, native methods calling back into bytecode, string interpolations and map literals whose operands run user bytecode, the generated plain / generator / async bodies of E-BODY, async DAGs, large literals, bulk symbols) run under a knob vector drawn per run and up to five forced reallocations of the value stack at PRNG-chosen calls; stdout and error must equal the run at default sizes unless a stack limit is reported. Initial stacks below 64 slots are a listed known finding (drawn rarely, each in a worker process that is recycled afterwards). Exploration level.",
         design_ref="DESIGN.md 5.7",
     ),
     "C11": dict(
@@ -28,7 +28,7 @@ CLAIMED = {
     "C15": dict(
         engine="E-BODY",
         technique="deterministic simulation: generated bodies run as plain / generator / async variants on pools of size 1-4 under seeded schedules, checked against an independent reference evaluator",
-        text="Generated function bodies (three loop forms, early returns, throws, do/catch, helper calls that the async variant awaits in place at any operand depth) are emitted as def, def * and async def (plus yield-bearing bodies with a list-building twin) and driven to completion under seeded schedules and pool sizes; the printed results of all variants must equal a big-integer reference evaluator, generators must yield in order and then signal the end, every promise must settle exactly once, nothing may deadlock or panic. Exploration level.",
+        text="Generated function bodies (three loop forms, early returns, throws, do/catch, do/finally, helper calls that the async variant awaits in place at any operand depth or makes through closures that await) are emitted as def, def * and async def (plus yield-bearing bodies with a list-building twin) and driven to completion under seeded schedules and pool sizes; the printed results of all variants must equal a big-integer reference evaluator, generators must yield in order and then signal the end, every promise must settle exactly once, nothing may deadlock or panic. A closure that shares a local with a body across a suspension is a listed known finding (capture family). Exploration level.",
         design_ref="DESIGN.md 5.2",
     ),
     "C16": dict(
